@@ -214,4 +214,4 @@ def main(run):
         "sequential reading of the redirect clause: fixpoint over inclusions first, then one step of redirect source<-target and target<-source marking",
         "the classifier returns used template names exactly as stored (without namespace prefix)",
     ]
-    return run.finish(cov, assumptions, replay_fn=None)
+    return run.finish(cov, assumptions, replay_fn=replay)
